@@ -15,6 +15,12 @@ claim("C02",
       "values are the grammar's, re-encoding equals the consumed prefix, no panic, Decode and DecodeOwned agree.",
       "Trusted: executor + models, z3, the recogniser in harness/secs2/c02.go. Outside: inputs longer than the bound other than the templates; GC/RSS (the guard counts requested bytes).")
 
+claim("C16",
+      "Bounded symbolic model check of every numeric/binary/boolean constructor: byteSize ranges over all ints, each argument over the full range of each of the 10 Go integer types, float32 and float64 (all bit patterns), "
+      "in scalar/slice/mixed shapes and as short numeric strings; the result is compared with an independent clamp table (never wrapped, refusals give an error), on the accessor and on the wire bytes; "
+      "unsupported dynamic types and errored children at depth <=3 give errored, never-equal items; no path panics. The hsms/sml half (errored items refused by message constructors, builders and send calls) is decided in the hsms harness.",
+      "Trusted: executor + models, z3 (qffpbv tactic for FP paths), the clamp tables in the harness. Outside: typed-nil children, long numeric strings, float strings, more than 3 arguments.")
+
 for _p, _r in {
     "C03": "check not yet registered in this session (work in progress, see DESIGN.md §3)",
     "C04": "check not yet registered in this session (work in progress, see DESIGN.md §3)",
